@@ -125,6 +125,8 @@ public:
       current_timestamp = 0;
     }
 
+    QUILL_VERIF_YIELD(6);
+
     if (QUILL_UNLIKELY(thread_context == nullptr))
     {
       // This caches the ThreadContext pointer to avoid repeatedly calling get_local_thread_context()
